@@ -22,7 +22,8 @@ def load_checks():
                 out[os.path.basename(path)[:-3].upper()] = d
     return out
 
-CHECKS = load_checks()
+REGISTERED = set(open(os.path.join(ROOT, 'tools', 'registered.txt')).read().split())
+CHECKS = {k: v for k, v in load_checks().items() if k in REGISTERED}   # only reviewed checks are claimed
 
 PENDING = {}
 
